@@ -39,7 +39,7 @@ def r1(run, tier):
     cfgs = {"ideal": "MC_PortSched_quick_ideal", "code": "MC_PortSched_quick_code"} if tier == "quick" else \
            {"ideal": "MC_PortSched_multi_ideal", "code": "MC_PortSched_multi_code"}
     os.makedirs(tlc.WORK, exist_ok=True)
-    outs = {k: os.path.join(tlc.WORK, "c01-%s.ndjson" % k) for k in cfgs}
+    outs = {k: os.path.join(tlc.WORK, "c01-%s-%d.ndjson" % (k, os.getpid())) for k in cfgs}
     for p in outs.values():
         if os.path.exists(p):
             os.unlink(p)
